@@ -6,11 +6,23 @@ props = [json.loads(l) for l in open(V + "/properties.jsonl")]
 TECH = "bounded symbolic execution of the real go/ssa (gosx) + z3 SMT (QF_BV) deciding every assertion over all values on each path; counterexamples replayed against the native build (go test -overlay)"
 NOTE_COMMON = "Trusted: go/ssa, the gosx interpreter and its intrinsic models (cross-validated against the native build on solver-chosen vectors every run), z3 4.8.12. Bounded: nothing is claimed outside the bounds listed in the evidence file. "
 CLAIMS = {
- "C19": ("Every codec function is executed symbolically from its SSA; round-trip, order, prefix-freeness, strict-decoding and no-panic assertions are decided by z3 for all 64-bit integers and all byte strings up to the stated length.",
+ "C03": ("The real KVTxn.Commit (2PC, async commit, 1PC; real batching, RegionRequestSender, replica selector and region cache) is executed symbolically against a harness store; a fault script chosen per RPC (request lost, response lost, region errors incl. UndeterminedResult, CommitTsExpired, a foreign resolver rolling the primary back) and symbolic timestamps quantify over lost messages and resolver races; assertions: nil => durably committed, definite error => not committed, undetermined only after an unanswered commit-point request, fault-free => success.",
+         "Store = harness MVCC model behind client.Client; <= 1 (quick) / 3 (thorough) faults per commit; 3 keys over 2 regions; one batch in flight (CommitterConcurrency 1)."),
+ "C04": ("Request-stream rules checked as a monitor over every RPC the real client emits in the C03 scenarios (prewrite-before-commit, primary first, no rollback after a possibly applied primary commit, commit-ts and min-commit-ts inequalities over symbolic timestamps, primary/secondaries/1PC shape, mutations = buffer), plus the mutation table (every flag combination through initKeysAndMutations/buildPrewriteRequest), the TTL manager on a virtual clock with symbolic oracle jumps, and the lock-resolver rules (real LockResolver over a harness storage).",
+         "Same store model as C03; TTL manager harness is replayed by the interpreter (virtual time); the truncated tail of the statement ('pessimistic-che...') is read as the pessimistic-action column of the mutation table."),
+ "C06": ("The real pessimistic-locking, aggressive-locking, Rollback/Commit and background clean-up code runs against the harness store; lock outcomes per request (ok, write conflict, key exists, deadlock, locked-with-conflict with a symbolic conflict ts) and call sequences are forked, clean-up requests may meet retryable region errors; after the transaction ended and background work drained no lock of it remains.",
+         "No message is lost (as the property states); <= 2 LockKeys calls / one aggressive-locking round; key sets over 2 regions. Mostly forked choices; the solver decides the timestamp-dependent branches."),
+ "C15": ("Kernel harnesses over a symbolic 24-bit keyspace id and symbolic keys (bounds, round trip, order, isolation, disjointness, range encode/decode, region keys through the memcomparable codec, bucket keys, region/key error decoding) and a catalogue generated from the current source for every tikvrpc.CmdType (EncodeRequest encodes every key-bearing member and leaves the caller's request unmodified, DecodeResponse strips every key-bearing member, AttachContext / region-error / batch-command round trips).",
+         "Keys <= 2 bytes (region keys <= 9); repeated members get 2 elements; allow-listed opaque members are listed with reasons in props/C15.allow.json; streaming responses are outside."),
+ "C16": ("The real pipelined KVTxn (PipelinedMemDB, flush goroutine, commitFlushedMutations, resolveFlushedLocks with the real range-task runner) runs against the harness store: every subset of 4 keys around a region border in <= 2/3 flush rounds then Commit or Rollback leaves no flushed lock and drives every flushed key to the single outcome; reads see the latest write at every tier, each mutation reaches exactly one flush, generations increase by one.",
+         "Cooperative deterministic schedule, no faults, flush/resolve concurrency 1; flush errors and throttling are outside."),
+ "C19": ("Every codec function is executed symbolically from its SSA; round-trip, order, prefix-freeness, strict-decoding and no-panic assertions are decided by z3 for all 64-bit integers and all byte strings up to the stated length; mvccEncode/mvccDecode included.",
          "Byte strings <= 9 (quick) / 17 (thorough) bytes; prefixes/suffixes <= 2 bytes."),
  "C20": ("One inductive back-off step from an arbitrary accounting state (all budgets, totals, per-call maxima as 64-bit symbols, every *Config variable generated from source, attempts 0..14), k-step sequences with resets, clone/fork/merge algebra, cancellation and kill; sleeping is virtual and tied to the accounting by a ghost total.",
          "time.After/Sleep virtual; rand.Intn arbitrary in range; expo() evaluated on concrete arguments; BackOffWeight from a boundary set in the overflow lemma (a symbolic 64-bit divisor is undecided by all solvers here)."),
 }
+GREEN = ["C03", "C04", "C06", "C15", "C16", "C19", "C20"]
+CLAIMS = {k: v for k, v in CLAIMS.items() if k in GREEN}
 NA = {
  "C01": "whole-system histories x schedules with the store in the loop: no unit decomposition preserves the statement and the whole-program concurrent run is outside what a symbolic interpreter + SMT can encode (DESIGN.md §4); client-local obligations are decided under C03/C04/C05/C12/C13",
  "C02": "crash point x recovery by other clients against surviving store state: needs client + store + second client as one symbolic run (DESIGN.md §4); local obligations under C03/C04/C12",
